@@ -32,6 +32,10 @@
 (* The statements are written as monitor operators over one observed event *)
 (* (Judge* / Mon) shared by the design models (ConsSelModel, ConsDecModel) *)
 (* and by the trace monitor ConsCfgTrace that judges the real Go packages. *)
+(* Pixel packing, buffer diffs and the Write rule come from ConsoleBase,   *)
+(* this family's own snapshot of the C19 module Console.tla.  Painted      *)
+(* pixels are judged byte-exactly, except for the low bits of a colour     *)
+(* field wider than 8 bits (component left-justified, low bits free).      *)
 (*                                                                         *)
 (* NAMED DEVIATIONS (constant Devs; the strict rule reports a diagnosis    *)
 (* whose first element is "Dev_<name>"; with the name in Devs the          *)
@@ -64,7 +68,7 @@
 EXTENDS Integers, Sequences, FiniteSets, Bitwise, TLC
 CONSTANTS Devs
 
-C == INSTANCE Console WITH Devs <- {}
+C == INSTANCE ConsoleBase       \* the family's own snapshot of the C19 pixel / diff / Write operators
 W32 == INSTANCE Word WITH LimbBits <- 16, NLimbs <- 2
 
 Abs(a) == IF a < 0 THEN -a ELSE a
@@ -183,6 +187,9 @@ BppOf(g) == IF IsFb(g) THEN (g.bpp + 1) \div 8 ELSE 1
 \* all stored bytes of a pixel painted with colour c = <<r, g, b, ..>> (packColor16 / packColor32)
 PackPx(g, c) == [k \in 1..BppOf(g) |-> C!PackByte(g.ci, c, k - 1)]
 PixelOf(g, pal, ci) == IF g.bpp = 8 THEN <<ci>> ELSE PackPx(g, pal[ci + 1])
+\* the stored bytes `have` are a painting of the packed colour `want`: byte-exact, except for the low bits of colour
+\* fields wider than 8 bits (the driver left-justifies the 8-bit component there; those bits are not constrained)
+PxEq(g, have, want) == have = want \/ (g.wide /\ \A k \in 1..Len(want) : (have[k] & g.care[k]) = (want[k] & g.care[k]))
 
 S0 == [on |-> FALSE, g |-> <<>>, offY |-> 0, fnt |-> <<>>, cols |-> 0, nrows |-> 0, pal |-> <<>>, rows |-> <<>>]
 
@@ -190,10 +197,21 @@ ApplyPd(pal, pd) == [i \in 1..Len(pal) |->
                        LET S == {j \in 1..Len(pd) : pd[j][1] = i - 1} IN
                        IF S = {} THEN pal[i] ELSE LET j == MaxOf(S) IN <<pd[j][2], pd[j][3], pd[j][4], pd[j][5]>>]
 
+\* a changed span (d[i] = <<row, first element, new values>>) that is not inside rows r0..r1, elements c0..c1 (0-based,
+\* inclusive): <<>> if none.  (Own definition: Console!Outside is about the text grid and its free area.)
+OutsideRect(d, r0, r1, c0, c1, what) ==
+  LET S == {i \in 1..Len(d) : ~(d[i][1] >= r0 /\ d[i][1] <= r1 /\ d[i][2] >= c0 /\ d[i][2] + Len(d[i][3]) - 1 <= c1)}
+  IN IF S = {} THEN <<>>
+     ELSE LET i == CHOOSE j \in S : \A k \in S : j <= k
+          IN <<what, "row", d[i][1], "elements", d[i][2], d[i][2] + Len(d[i][3]) - 1, "allowed rows", r0, r1, "allowed elements", c0, c1>>
+
 Unchanged(d, what) == IF d = <<>> THEN <<>> ELSE <<what, "row", d[1][1], "elements", d[1][2], d[1][2] + Len(d[1][3]) - 1>>
 
 MonInit(e) ==
-  LET g == [cons |-> e.cons, w |-> e.w, h |-> e.h, pitch |-> e.pitch, bpp |-> e.bpp, ci |-> e.ci]
+  LET g0 == [cons |-> e.cons, w |-> e.w, h |-> e.h, pitch |-> e.pitch, bpp |-> e.bpp, ci |-> e.ci]
+      \* wide: some colour field has more than 8 bits; care[k]: the bits of byte k that are not low bits of such a field
+      wd == IsFb(g0) /\ g0.bpp > 8 /\ C!HasWideField(e.ci)
+      g == g0 @@ [wide |-> wd, care |-> IF wd THEN [k \in 1..BppOf(g0) |-> 255 - C!SlackByte(e.ci, k - 1)] ELSE <<>>]
       n == IF IsFb(g) THEN 256 ELSE 16
       def(i) == IF i <= 16 THEN EgaPal[i] ELSE <<0, 0, 0>>
       badPal == IF Len(e.pal) # n THEN {0} ELSE {i \in 1..n : Dac6(e.pal[i]) # Dac6(def(i))}
@@ -233,15 +251,17 @@ SetLogoCheck(s, got, e) ==
       used == {l.data[i] : i \in 1..Len(l.data)}
       lut == [c \in used |-> PixelOf(g, pal2, (c + off) % 256)]
       Seg(y) == [j \in 1..(l.w * B) |-> lut[l.data[y * l.w + ((j - 1) \div B) + 1]][((j - 1) % B) + 1]]
-      out == C!Outside([offY |-> 0, rowB |-> g.w * B], e.d, r0, r0 + l.h - 1, c0, c1, "SetLogo changed elements outside the logo rectangle")
-      bad == {y \in 0..(l.h - 1) : SubSeq(got[r0 + y + 1], c0 + 1, c1 + 1) # Seg(y)}
+      out == OutsideRect(e.d, r0, r0 + l.h - 1, c0, c1, "SetLogo changed elements outside the logo rectangle")
+      ElOK(y, j) == got[r0 + y + 1][c0 + j] = Seg(y)[j]
+                    \/ (g.wide /\ (got[r0 + y + 1][c0 + j] & g.care[((j - 1) % B) + 1]) = (Seg(y)[j] & g.care[((j - 1) % B) + 1]))
+      bad == {y \in 0..(l.h - 1) : SubSeq(got[r0 + y + 1], c0 + 1, c1 + 1) # Seg(y) /\ ~(g.wide /\ \A j \in 1..(l.w * B) : ElOK(y, j))}
       wantPorts == IF g.bpp = 8 THEN Cat([i \in 1..Len(l.pal) |-> DacSeq(off + i - 1, pal2[off + i])], Len(l.pal)) ELSE <<>>
   IN [s |-> [s EXCEPT !.pal = pal2, !.offY = l.h],
       c |-> IF l.w = 0 \/ l.h = 0 THEN Unchanged(e.d, "SetLogo with an empty logo changed the buffer")
             ELSE IF out # <<>> THEN out
             ELSE IF bad # {}
             THEN LET y == MinOf(bad)
-                     X == {j \in 1..(l.w * B) : got[r0 + y + 1][c0 + j] # Seg(y)[j]}
+                     X == {j \in 1..(l.w * B) : ~ElOK(y, j)}
                      j == MinOf(X)
                  IN <<"SetLogo drew a wrong pixel", "logo row", y, "logo column", (j - 1) \div B, "buffer row", r0 + y, "element", c0 + j - 1,
                       "got", got[r0 + y + 1][c0 + j], "want", Seg(y)[j], "logo colour", l.data[y * l.w + ((j - 1) \div B) + 1]>>
@@ -266,16 +286,18 @@ ReplaceCheck(s, got, e, oldc) ==
       aligned == g.pitch % B = 0
       nslots == g.pitch \div B
       Slot(row, p) == SubSeq(row, p * B + 1, p * B + B)
+      \* a visible pixel o -> n: one that holds the old colour byte for byte becomes the new colour; one that differs from
+      \* the old colour in constrained bits stays; one that differs only in the low bits of a wide field may do either
+      Holds(o) == o = src \/ (g.wide /\ PxEq(g, o, src))
+      VisOK(o, n) == IF o = src THEN PxEq(g, n, dst) ELSE IF Holds(o) THEN n = o \/ PxEq(g, n, dst) ELSE n = o
+      PadOK(o, n) == n = o \/ (Holds(o) /\ PxEq(g, n, dst))
       \* strict, row-wise rule: visible pixels of the text rows; padding slots are lenient when they are pixel-aligned
       RowOK(r) ==
         IF r < s.offY THEN got[r + 1] = s.rows[r + 1]
         ELSE IF src = dst THEN got[r + 1] = s.rows[r + 1]
-        ELSE /\ \A p \in 0..(g.w - 1) :
-                  Slot(got[r + 1], p) = (IF Slot(s.rows[r + 1], p) = src THEN dst ELSE Slot(s.rows[r + 1], p))
+        ELSE /\ \A p \in 0..(g.w - 1) : VisOK(Slot(s.rows[r + 1], p), Slot(got[r + 1], p))
              /\ IF aligned
-                THEN \A p \in g.w..(nslots - 1) :
-                        \/ Slot(got[r + 1], p) = Slot(s.rows[r + 1], p)
-                        \/ (Slot(s.rows[r + 1], p) = src /\ Slot(got[r + 1], p) = dst)
+                THEN \A p \in g.w..(nslots - 1) : PadOK(Slot(s.rows[r + 1], p), Slot(got[r + 1], p))
                 ELSE SubSeq(got[r + 1], g.w * B + 1, g.pitch) = SubSeq(s.rows[r + 1], g.w * B + 1, g.pitch)
       badRows == {r \in 0..(g.h - 1) : ~RowOK(r)}
       strictOK == e.res = "ok" /\ badRows = {}
@@ -283,7 +305,8 @@ ReplaceCheck(s, got, e, oldc) ==
       linOK == (e.res = "panic") = lin.panic /\ Flat(got, g.pitch) = lin.fb
       diag == IF e.res # "ok" THEN <<"SetPaletteColor did not return normally", e.res>>
               ELSE LET r == MinOf(badRows)
-                       P == {p \in 0..(nslots - 1) : Slot(got[r + 1], p) # (IF r >= s.offY /\ p < g.w /\ Slot(s.rows[r + 1], p) = src THEN dst ELSE Slot(s.rows[r + 1], p))}
+                       P == {p \in 0..(nslots - 1) : IF r >= s.offY /\ p < g.w THEN ~VisOK(Slot(s.rows[r + 1], p), Slot(got[r + 1], p))
+                                                     ELSE Slot(got[r + 1], p) # Slot(s.rows[r + 1], p)}
                    IN <<"SetPaletteColor recoloured the wrong pixels", "row", r,
                         IF r < s.offY THEN "logo row changed" ELSE "text row", "first wrong pixel slot", IF P = {} THEN -1 ELSE MinOf(P),
                         "old colour bytes", src, "new colour bytes", dst>>
@@ -316,8 +339,8 @@ SetPalCheck(s, got, e) ==
 
 (* ---- Write: text starts below the logo (judged by the C19 operator) ---- *)
 WriteCheck(s, got, e, fd) ==
-  LET ge == [cons |-> "fb", w |-> s.g.w, h |-> s.g.h, pitch |-> s.g.pitch, bpp |-> s.g.bpp, ci |-> s.g.ci,
-             gw |-> s.fnt.gw, gh |-> s.fnt.gh, bpr |-> s.fnt.bpr, offY |-> s.offY, clear |-> 0]
+  LET ge == [w |-> s.g.w, h |-> s.g.h, pitch |-> s.g.pitch, bpp |-> s.g.bpp, ci |-> s.g.ci,
+             gw |-> s.fnt.gw, gh |-> s.fnt.gh, bpr |-> s.fnt.bpr, offY |-> s.offY]
       g == C!Geo(ge) @@ [fd |-> fd, pal |-> s.pal]
   IN C!WriteCheck(g, s.rows, got, e)
 
